@@ -180,11 +180,59 @@ def r3(ctx):
                 for kw in call.keywords:
                     if kw.arg:
                         bound[kw.arg] = kw.value
+                from .common import path_value as _pv
+                evr = Evaluator(prog, m, svc)
                 for k in mutable:
                     a = bound.get(k)
                     src = norm(subst_locals(h, a)) if a is not None else None
-                    ctx.check("%s:renewal-passes[%s]" % (hname, k), src == "%s.%s" % (ap, REQ[k]), where(m, call),
+                    ok = src == "%s.%s" % (ap, REQ[k])
+                    if not ok and isinstance(a, ast.Name):
+                        # the argument is a local: what it holds at the call, for two different requests
+                        ok = True
+                        for conf, life in ((True, 60), (False, 30)):
+                            env0 = {"%s.lifetime" % ap: life, "%s.issueConfirmedNotifications" % ap: conf}
+                            vals = set()
+                            for p_ in enumerate_paths(h):
+                                if not any(nd is call for nd in path_nodes(p_)):
+                                    continue
+                                kind, v = _pv(p_, evr, env0, a.id, upto=enclosing_stmt(call))
+                                if kind != "infeasible":
+                                    vals.add((kind, v))
+                            ok = ok and vals == {("value", life if k == "lifetime" else conf)}
+                    ctx.check("%s:renewal-passes[%s]" % (hname, k), ok, where(m, call),
                               "the renewal must be given the request's %s (%s.%s); found %s: the subscription keeps reporting the first request's value" % (k, ap, REQ[k], src))
+    # a request may omit the lifetime (= indefinite): what reaches Subscription(...) / renew_subscription(...) as lifetime is a
+    # number on every path, for every combination of present / absent request parameters that is not a cancellation
+    from .common import path_value
+    evs = Evaluator(prog, m, svc)
+    for hname, h in svc.methods.items():
+        if not hname.startswith("do_Subscribe"):
+            continue
+        ap = h.args.args[1].arg
+        sinks = []
+        for call in calls_in(h):
+            if isinstance(call.func, ast.Name) and call.func.id == "Subscription" and len(call.args) >= 6:
+                sinks.append((call, call.args[5]))
+            elif isinstance(call.func, ast.Attribute) and call.func.attr == "renew_subscription" and call.args:
+                sinks.append((call, call.args[0]))
+        bad = []
+        for call, arg in sinks:
+            if not isinstance(arg, ast.Name):
+                continue
+            for conf, life in ((False, None), (True, None), (True, 0), (False, 60)):
+                env0 = {"%s.lifetime" % ap: life, "%s.issueConfirmedNotifications" % ap: conf, "obj": True, "obj._object_supports_cov": True, "cov_detection": True, "criteria_class": True}
+                for p_ in enumerate_paths(h):
+                    if not any(nd is call for nd in path_nodes(p_)):
+                        continue
+                    kind, v = path_value(p_, evs, env0, arg.id, upto=enclosing_stmt(call))
+                    if kind == "infeasible":
+                        continue
+                    if kind != "value" or v is None or isinstance(v, bool) or not isinstance(v, (int, float)):
+                        item = "%s(confirmed=%r, lifetime=%r) -> %s %r" % (norm(call.func), conf, life, kind, v)
+                        if item not in bad:
+                            bad.append(item)
+        ctx.check("%s:lifetime-is-a-number" % hname, bool(sinks) and not bad, where(m, h),
+                  "the lifetime handed on must be a number (0 = indefinite) whenever the request is not a cancellation: %s" % "; ".join(bad[:3]))
     ctx.check("ChangeOfValueServices:renewal-sites", nsites >= 2, where(m, svc.node), "both subscribe handlers renew an existing subscription (found %d sites)" % nsites)
     # remaining time is computed from the timer
     for fn, name in ((rep, "COVDetection.send_cov_notifications"), (acs, "ActiveCOVSubscriptions.ReadProperty")):
